@@ -131,8 +131,10 @@ def check(run):
     rng = run.rng
     quick = run.tier == 'quick'
     scen = common.corpus('C13') + [rollgen.seq_scenario(rng) for _ in range(40 if quick else 600)]
+    # restarts within one second whose new lifetime writes nothing before it ends or before the file is retired
+    scen += ['1 S w1:5 X S X S w2:5', '1 S w1:5 X S B w2:5', '2 P0 S w1:5 X S B B w2:5', '1 pre S X S w1:3', '1 S w1:9 w2:9 X S X S X S w3:3', '1 S w1:5 X S B B w2:5 X S X S w3:3']
     run_sequential(run, 'c13/sequential', scen,
-        'sequential histories against REAL interval boundaries (1 s / 2 s rotations): writes of 0 B - 64 KiB, waits across 1-6 boundaries, idle intervals, stop/start cycles, '
+        'sequential histories against REAL interval boundaries (1 s / 2 s rotations): writes of 0 B - 64 KiB, waits across 1-6 boundaries, idle intervals, stop/start cycles (also lifetimes that write nothing), '
         'a pre-existing file named for the current second; the observed history (operation @ second) is replayed on the model and the final directory (file name -> payload ids in order) compared')
     cc = ['%d %d %d %d 0 0' % (rng.choice([1, 1, 2]), rng.choice([1, 2, 4, 8, 16]), rng.choice([2, 3, 4]), rng.choice([0, 40, 2000])) for _ in range(10 if quick else 200)]
     # large lines (32 KiB .. 64 KiB and a little beyond), writers calling on a common beat
